@@ -97,7 +97,7 @@ def run_check(prop: str, tier: str, seed: int, replay_path: str = "") -> int:
         # rewritten and the property is about the schedulers), that is not a broken obligation of THIS property: the last driver that did build is
         # used instead, provided the generated files of this property's own regions (and of the kernel/attribute regions every analysis-level
         # correspondence runs through) are byte-identical to the ones that driver was built from.
-        drv_exe, why = C.good_driver_for(sorted(set(my_regions) | set(getattr(mod, "DRIVER_REGIONS", C.CORE_DRIVER_REGIONS))))
+        drv_exe, why = C.good_driver_for(sorted((set(my_regions) | set(getattr(mod, "DRIVER_REGIONS", C.CORE_DRIVER_REGIONS))) - C.NO_DRIVER_OPS))
         if drv_exe is None:
             broken.append({"kind": "build", "target": "skdriver (generated code does not compile)", "log": excerpt(out_drv), "fallback": why})
         else:
